@@ -356,13 +356,15 @@ class ObjEvaluator(Evaluator):
             return env[node.id]
         if node.id in getattr(self.mod, "classes", {}):
             return ("class", node.id)
-        if node.id in ("open", "hasattr", "getattr", "setattr", "type", "dict", "print", "repr", "set", "object"):
+        if node.id in ("open", "hasattr", "getattr", "setattr", "type", "dict", "print", "repr", "set", "object", "slice"):
             return ("builtin", node.id)
         try:
             return Evaluator.e_Name(self, node, env)
         except AnalysisError as e:
-            if "unbound name" in str(e):
-                # a local that no executed statement has bound: Python raises UnboundLocalError (a NameError)
+            stack = self.__dict__.get("_locals_stack") or []
+            if "unbound name" in str(e) and stack and node.id in stack[-1]:
+                # a local of the running function that no executed statement has bound: Python raises UnboundLocalError (a
+                # NameError).  Any other name this interpreter cannot resolve is its own gap, not the program's error.
                 raise PyRaise("NameError", node, node.id)
             raise
 
@@ -384,27 +386,226 @@ class ObjEvaluator(Evaluator):
 
     def e_Attribute(self, node, env):
         base = self.eval(node.value, env)
-        if isinstance(base, Obj):
-            if node.attr in base.attrs:
-                return base.attrs[node.attr]
-            pm = getattr(base, "pymethods", {})
-            if node.attr in pm:
-                return ("pyfunc", pm[node.attr])
-            fn = self.find_method(base, node.attr)
-            if fn is not None:
-                return ("boundmethod", base, fn)
-            if pm:
-                raise AnalysisError("E7: the model of %s has no attribute `%s` (line %d)" % (base.name.split("#")[0], node.attr, node.lineno))
-            raise PyRaise("AttributeError", node, "%s has no attribute %s" % (base.name, node.attr))
+        r = self.object_attribute(base, node.attr, node)
+        if r is not NotImplemented:
+            return r
         if isinstance(base, (SStr, Sym, str, dict, list)) or (isinstance(base, tuple) and len(base) == 2 and base[0] in ("regex", "rematch")):
             return ("method", base, node.attr)
         self.hand_down(node.value, base)
         r = Evaluator.e_Attribute(self, node, env)
         if isinstance(r, tuple) and len(r) == 2 and r[0] == "import":
             v = self.resolve_import(r[1])
-            if v is not None:
-                return v
+            if v is not None and not (isinstance(v, tuple) and len(v) == 3 and v[0] == "foreignclass"):
+                return v            # (a class stays an import name: calls of it go through the rule's import policy first)
         return r
+
+    def get_attribute(self, base, attr, node):
+        r = self.object_attribute(base, attr, node)
+        if r is not NotImplemented:
+            return r
+        return Evaluator.get_attribute(self, base, attr, node)
+
+    # ---- classes ------------------------------------------------------------------------------------------------------------
+    def class_info(self, cname):
+        """-> dict(kind = plain | namedtuple | enum, fields, members, attrs (class-level assignments, evaluated lazily), node)"""
+        cache = self.__dict__.setdefault("_class_info", {})
+        if cname in cache:
+            return cache[cname]
+        cls = self.mod.classes[cname]
+        info = {"kind": "plain", "fields": None, "node": cls, "name": cname, "bases": []}
+        for b in cls.bases:
+            txt = unparse(b)
+            if isinstance(b, ast.Call) and txt.split("(")[0].split(".")[-1] == "namedtuple":
+                v = self.eval(b, {})
+                if isinstance(v, tuple) and v and v[0] == "ntclass":
+                    info["kind"], info["fields"] = "namedtuple", tuple(v[2])
+                    continue
+            if isinstance(b, ast.Name) and b.id in getattr(self.mod, "assigns", {}):
+                v = self.module_constant(b.id)
+                if isinstance(v, tuple) and v and v[0] == "ntclass":
+                    info["kind"], info["fields"] = "namedtuple", tuple(v[2])
+                    continue
+            if txt.split(".")[-1] in ("IntEnum", "Enum", "IntFlag"):
+                info["kind"] = "enum"
+                info["int_enum"] = txt.split(".")[-1] != "Enum"
+                continue
+            if isinstance(b, ast.Name) and b.id in self.mod.classes:
+                info["bases"].append(b.id)
+                continue
+            if txt in ("object",):
+                continue
+            raise AnalysisError("E7: class %s derives from `%s`, which is not modelled" % (cname, txt[:40]))
+        cache[cname] = info
+        return info
+
+    def class_attr(self, cname, attr, node):
+        """a class-level assignment NAME = value of the class (or of a base class of the repository), evaluated once"""
+        info = self.class_info(cname)
+        cache = info.setdefault("attr_values", {})
+        if attr in cache:
+            return cache[attr]
+        for st in info["node"].body:
+            tgt = st.targets[0] if isinstance(st, ast.Assign) and len(st.targets) == 1 else st.target if isinstance(st, ast.AnnAssign) and st.value is not None else None
+            if isinstance(tgt, ast.Name) and tgt.id == attr:
+                env0 = {}
+                # earlier class-level names are visible in the class body
+                for st2 in info["node"].body:
+                    if st2 is st:
+                        break
+                    t2 = st2.targets[0] if isinstance(st2, ast.Assign) and len(st2.targets) == 1 else None
+                    if isinstance(t2, ast.Name) and t2.id in cache:
+                        env0[t2.id] = cache[t2.id]
+                cache[attr] = self.eval(st.value, env0)
+                return cache[attr]
+        for b in info["bases"]:
+            v = self.class_attr(b, attr, node)
+            if v is not NotImplemented:
+                return v
+        return NotImplemented
+
+    def class_function(self, cname, name):
+        """-> (FunctionDef, kind) with kind in method | staticmethod | classmethod | property, searching base classes too"""
+        info = self.class_info(cname)
+        for n_ in info["node"].body:
+            if isinstance(n_, ast.FunctionDef) and n_.name == name:
+                decs = [unparse(d).split(".")[-1] for d in n_.decorator_list]
+                kind = "method"
+                for d in decs:
+                    if d in ("staticmethod", "classmethod", "property", "cached_property"):
+                        kind = "property" if d == "cached_property" else d
+                    elif d.split("(")[0] in ("lru_cache", "cache", "wraps"):
+                        pass
+                    else:
+                        raise AnalysisError("E7: method %s.%s is wrapped by the decorator `%s`" % (cname, name, d[:40]))
+                return n_, kind
+        for b in info["bases"]:
+            r = self.class_function(b, name)
+            if r is not None:
+                return r
+        return None
+
+    def iterate_tagged(self, v, node):
+        if v[0] == "class" and v[1] in getattr(self.mod, "classes", {}) and self.class_info(v[1])["kind"] == "enum":
+            return [m for _nm, m in self.enum_members(v[1])]
+        return Evaluator.iterate_tagged(self, v, node)
+
+    def enum_members(self, cname):
+        info = self.class_info(cname)
+        out = []
+        for st in info["node"].body:
+            if isinstance(st, ast.Assign) and len(st.targets) == 1 and isinstance(st.targets[0], ast.Name) and not st.targets[0].id.startswith("_"):
+                v = self.class_attr(cname, st.targets[0].id, st)
+                out.append((st.targets[0].id, v))
+        return out
+
+    def home_of(self, base):
+        """the evaluator of the module in which the class of an instance is defined (this one, usually)"""
+        m = getattr(base, "cls_mod", None)
+        if m is None or m is self.mod or getattr(m, "rel", None) == self.mod.rel:
+            return self
+        subs = self.__dict__.setdefault("_home_evaluators", {})
+        if m.rel not in subs:
+            sub = FullEvaluator(m, max_depth=self.max_depth)
+            sub.import_values = self.import_values
+            sub.import_policy = self.import_policy
+            sub.sign_policy = self.sign_policy
+            sub.threshold_policy = self.threshold_policy
+            sub.branch_policy = self.branch_policy
+            sub.close_policy = getattr(self, "close_policy", None)
+            dotted_mod = m.rel[:-3].replace("/", ".")
+            parent = self
+
+            def forward(name, args, kwargs, node, dotted_mod=dotted_mod, parent=parent):
+                # a call inside that module is, for the rule that watches the importer, a call of module.name
+                if parent.import_policy is not None:
+                    parent.events.append(("import", "%s.%s" % (dotted_mod, name), list(args)))
+                    return parent.import_policy("%s.%s" % (dotted_mod, name), args, kwargs, node)
+                return NotImplemented
+            sub.call_policy = forward
+            subs[m.rel] = sub
+        subs[m.rel].depth = self.depth
+        return subs[m.rel]
+
+    def object_attribute(self, base, attr, node):
+        """attribute access on instances, named-tuple instances, classes and enumerations; NotImplemented for other values"""
+        from .symeval import NTuple
+        if isinstance(base, (Obj, NTuple)):
+            home = self.home_of(base)
+            if home is not self:
+                r = home.object_attribute(base, attr, node)
+                if isinstance(r, tuple) and r and r[0] == "boundmethod" and len(r) == 3:
+                    return ("pyfunc", lambda *a, _h=home, _r=r, **kw: _h.call_bound(_r[2], _r[1], list(a), dict(kw), node))
+                if isinstance(r, tuple) and r and r[0] == "closure":
+                    return ("pyfunc", lambda *a, _h=home, _r=r, **kw: _h.call_closure(_r, list(a), dict(kw), node))
+                return r
+        if isinstance(base, tuple) and len(base) == 2 and base[0] == "class" and base[1] in getattr(self.mod, "classes", {}):
+            cname = base[1]
+            info = self.class_info(cname)
+            if info["kind"] == "enum":
+                for nm, v in self.enum_members(cname):
+                    if nm == attr:
+                        return v
+                if attr == "__members__":
+                    return dict(self.enum_members(cname))
+            if info["kind"] == "namedtuple" and attr == "_fields":
+                return tuple(info["fields"])
+            v = self.class_attr(cname, attr, node)
+            if v is not NotImplemented:
+                return v
+            fk = self.class_function(cname, attr)
+            if fk is not None:
+                fn, kind = fk
+                if kind == "staticmethod":
+                    return ("closure", fn, {})
+                if kind == "classmethod":
+                    return ("boundmethod", base, fn)
+                return ("closure", fn, {})          # a plain function reached through the class: self is passed explicitly
+            raise PyRaise("AttributeError", node, "class %s has no attribute %s" % (cname, attr))
+        owner = None
+        if isinstance(base, Obj):
+            origin = getattr(base, "origin", None)
+            if origin is not None and ("%s.%s" % (origin, attr)) in (self.import_values or {}):
+                return self.import_values["%s.%s" % (origin, attr)]       # the value a rule gives this attribute (the switch)
+            if attr in base.attrs:
+                return base.attrs[attr]
+            pm = getattr(base, "pymethods", {})
+            if attr in pm:
+                return ("pyfunc", pm[attr])
+            cls = getattr(base, "cls", None)
+            owner = cls.name if cls is not None else None
+        elif isinstance(base, NTuple):
+            if attr in base.nt_fields:
+                return base[base.nt_fields.index(attr)]
+            if attr == "_fields":
+                return tuple(base.nt_fields)
+            if attr in ("_replace", "_asdict", "count", "index"):
+                return ("method", base, attr)
+            owner = base.cls.name if getattr(base, "cls", None) is not None else None
+            if owner is None:
+                raise PyRaise("AttributeError", node, "%s has no attribute %s" % (base.nt_name, attr))
+        elif isinstance(base, Rat) and attr in ("value", "real"):
+            return base                      # an IntEnum member is its value
+        else:
+            return NotImplemented
+        if owner is not None and owner in getattr(self.mod, "classes", {}):
+            fk = self.class_function(owner, attr)
+            if fk is not None:
+                fn, kind = fk
+                if kind == "property":
+                    return self.call_bound(fn, base, [], {}, node)
+                if kind == "staticmethod":
+                    return ("closure", fn, {})
+                if kind == "classmethod":
+                    return ("boundmethod", ("class", owner), fn)
+                return ("boundmethod", base, fn)
+            v = self.class_attr(owner, attr, node)
+            if v is not NotImplemented:
+                return v
+        if isinstance(base, Obj):
+            if getattr(base, "pymethods", {}):
+                raise AnalysisError("E7: the model of %s has no attribute `%s` (line %d)" % (base.name.split("#")[0], attr, node.lineno))
+            raise PyRaise("AttributeError", node, "%s has no attribute %s" % (base.name, attr))
+        raise PyRaise("AttributeError", node, "%s has no attribute %s" % (getattr(base, "nt_name", "object"), attr))
 
     def import_exists(self, dotted):
         """does the dotted name denote a module of the repository or a top-level name of one?"""
@@ -425,26 +626,38 @@ class ObjEvaluator(Evaluator):
         return nm in other.functions or nm in other.classes or nm in other.assigns or nm in other.imports
 
     def resolve_import(self, dotted):
-        """a module-level constant (or re-exported import) of another module of the repository, evaluated there"""
+        """a module-level constant (or re-exported import, or class) of another module of the repository, evaluated there;
+        a package name stands for its __init__ module"""
         parts = dotted.split(".")
+        from . import core as _core
         for cut in range(len(parts) - 1, 0, -1):
-            rel = "/".join(parts[:cut]) + ".py"
-            try:
-                from . import core as _core
-                other = _core.module(rel)
-            except AnalysisError:
+            other = None
+            for rel in ("/".join(parts[:cut]) + ".py", "/".join(parts[:cut]) + "/__init__.py"):
+                try:
+                    other = _core.module(rel)
+                    break
+                except AnalysisError:
+                    continue
+            if other is None:
                 continue
             rest = parts[cut:]
             if len(rest) != 1:
                 return None
             name = rest[0]
             if name in other.assigns:
-                key = (rel, name)
+                key = (other.rel, name)
                 if key not in _IMPORT_CACHE:
-                    _IMPORT_CACHE[key] = ObjEvaluator(other).module_constant(name)
+                    v = FullEvaluator(other, max_depth=10).module_constant(name)
+                    if isinstance(v, Obj):
+                        v.origin = dotted          # e.g. xfab.CHECKS: attributes a rule models (import_values) are looked up under this name
+                    _IMPORT_CACHE[key] = v
                 return _IMPORT_CACHE[key]
-            if name in other.imports and not other.imports[name].startswith(parts[0] + "."):
+            if name in other.classes:
+                return ("foreignclass", other.rel, name) if getattr(self, "_want_classes", False) else None
+            if name in other.imports and not other.imports[name].startswith(parts[0] + ".") :
                 return ("import", other.imports[name])
+            if name in other.imports and other.imports[name] != dotted:
+                return self.resolve_import(other.imports[name])      # re-exported from a sibling module
             return None
         return None
 
@@ -452,6 +665,9 @@ class ObjEvaluator(Evaluator):
         cls = getattr(obj, "cls", None)
         if cls is None:
             return None
+        if cls.name in getattr(self.mod, "classes", {}) and self.mod.classes[cls.name] is cls:
+            fk = self.class_function(cls.name, name)
+            return fk[0] if fk is not None else None
         for n_ in cls.body:
             if isinstance(n_, ast.FunctionDef) and n_.name == name:
                 return n_
@@ -460,6 +676,18 @@ class ObjEvaluator(Evaluator):
     def e_Subscript(self, node, env, base=Evaluator._NOBASE):
         if base is Evaluator._NOBASE:
             base = self.eval(node.value, env)
+        if not isinstance(node.slice, (ast.Slice, ast.Tuple, ast.Constant)) and not isinstance(base, dict):
+            sv = self.eval(node.slice, env)
+            if isinstance(sv, slice):
+                # a slice object used as subscript: the same as the slice written out
+                def c_(x_):
+                    n_ = ast.Constant(value=x_)
+                    return ast.copy_location(n_, node)
+                sl = ast.Slice(lower=None if sv.start is None else c_(sv.start), upper=None if sv.stop is None else c_(sv.stop),
+                               step=None if sv.step is None else c_(sv.step))
+                node2 = ast.copy_location(ast.Subscript(value=node.value, slice=ast.copy_location(sl, node), ctx=node.ctx), node)
+                return self.e_Subscript(node2, env, base)
+            self.hand_down(node.slice, sv)
         if isinstance(base, dict):
             k = dict_key(self.eval(node.slice, env))
             if isinstance(k, (Rat, Sym, SStr)):
@@ -499,24 +727,40 @@ class ObjEvaluator(Evaluator):
                 return r
         return Evaluator.e_Subscript(self, node, env, base)
 
-    def e_Call(self, node, env):
-        f = self.eval(node.func, env)
-        if isinstance(f, tuple) and f and f[0] in ("class", "boundmethod", "pyfunc"):
-            args = [self.eval(a, env) for a in node.args]
-            kwargs = {k.arg: self.eval(k.value, env) for k in node.keywords if k.arg is not None}
-            for k in node.keywords:
-                if k.arg is None:
-                    d = self.eval(k.value, env)
-                    if not isinstance(d, dict):
-                        raise AnalysisError("E7: ** of a non-dictionary (line %d)" % node.lineno)
-                    kwargs.update(d)
-            if f[0] == "class":
-                return self.instantiate(f[1], args, kwargs, node)
-            if f[0] == "boundmethod":
-                return self.call_bound(f[2], f[1], args, kwargs, node)
+    def foreign_object_call(self, dotted, args, kwargs, node):
+        """a class of another module of the repository, or a method of an object defined there (CHECKS.rotation_matrix) --
+        consulted after the rule's import policy has declined the name"""
+        parts = dotted.split(".")
+        if parts[0] != "xfab":
+            return NotImplemented
+        self._want_classes = True
+        try:
+            v = self.resolve_import(dotted)
+        finally:
+            self._want_classes = False
+        if isinstance(v, tuple) and len(v) == 3 and v[0] == "foreignclass":
+            return self.dispatch_call(v, args, kwargs, node)
+        if len(parts) >= 3:
+            owner = self.resolve_import(".".join(parts[:-1]))
+            if isinstance(owner, Obj) and getattr(owner, "cls", None) is not None:
+                return self.dispatch_call(self.object_attribute(owner, parts[-1], node), args, kwargs, node)
+        return NotImplemented
+
+    def dispatch_call(self, f, args, kwargs, node):
+        if isinstance(f, tuple) and len(f) == 3 and f[0] == "foreignclass":
+            from . import core as _core
+            other = _core.module(f[1])
+            sub = FullEvaluator(other, max_depth=self.max_depth)
+            sub.import_values, sub.import_policy = self.import_values, self.import_policy
+            sub.depth = self.depth
+            return sub.instantiate(f[2], list(args), dict(kwargs), node)
+        if isinstance(f, tuple) and f and f[0] == "class" and f[1] in getattr(self.mod, "classes", {}):
+            return self.instantiate(f[1], list(args), dict(kwargs), node)
+        if isinstance(f, tuple) and f and f[0] == "boundmethod":
+            return self.call_bound(f[2], f[1], list(args), dict(kwargs), node)
+        if isinstance(f, tuple) and f and f[0] == "pyfunc":
             return f[1](*args, **kwargs)
-        self.hand_down(node.func, f)
-        return Evaluator.e_Call(self, node, env)
+        return Evaluator.dispatch_call(self, f, args, kwargs, node)
 
     def new_obj(self, name, cls=None, **attrs):
         self.nobj += 1
@@ -526,11 +770,41 @@ class ObjEvaluator(Evaluator):
         return o
 
     def instantiate(self, cname, args, kwargs, node):
+        from .symeval import NTuple
         cls = self.mod.classes[cname]
+        info = self.class_info(cname)
+        if info["kind"] == "namedtuple":
+            if self.class_function(cname, "__new__") is not None or self.class_function(cname, "__init__") is not None:
+                raise AnalysisError("E7: named-tuple class %s with its own constructor (line %d)" % (cname, node.lineno))
+            fields = info["fields"]
+            vals = list(args) + [None] * (len(fields) - len(args))
+            given = set(range(len(args)))
+            for k_, v_ in kwargs.items():
+                if k_ not in fields or fields.index(k_) in given:
+                    raise PyRaise("TypeError", node, "%s() got an unexpected / repeated field %s" % (cname, k_))
+                vals[fields.index(k_)] = v_
+                given.add(fields.index(k_))
+            if len(args) > len(fields) or len(given) != len(fields):
+                raise PyRaise("TypeError", node, "%s() takes %d fields" % (cname, len(fields)))
+            nt = NTuple(cname, fields, vals, klass=cls)
+            nt.cls_mod = self.mod
+            return nt
+        if info["kind"] == "enum":
+            if len(args) != 1 or kwargs:
+                raise PyRaise("TypeError", node, "%s() takes one value" % cname)
+            for _nm, v in self.enum_members(cname):
+                if okey(v) == okey(args[0]):
+                    return v
+            if isinstance(args[0], Rat) and not args[0].is_const():
+                raise AnalysisError("E7: %s(<symbolic value>) (line %d)" % (cname, node.lineno))
+            raise PyRaise("ValueError", node, "%s is not a valid %s" % (okey(args[0]), cname))
         o = self.new_obj(cname, cls)
-        init = self.find_method(o, "__init__")
-        if init is not None:
-            self.call_bound(init, o, args, kwargs, node)
+        o.cls_mod = self.mod
+        fk = self.class_function(cname, "__init__")
+        if fk is not None:
+            self.call_bound(fk[0], o, args, kwargs, node)
+        elif args or kwargs:
+            raise PyRaise("TypeError", node, "%s() takes no arguments" % cname)
         o.stores = []
         return o
 
@@ -561,10 +835,11 @@ class ObjEvaluator(Evaluator):
             env[a.kwarg.arg] = extra
         elif extra:
             raise PyRaise("TypeError", node, "unexpected keyword %s for %s" % (sorted(extra), fn.name))
-        from .symeval import is_generator
+        from .symeval import is_generator, local_names
         gen = is_generator(fn)
         if gen:
             env["$yield"] = []      # a generator method is run to completion: the caller gets the list of yielded values
+        self.__dict__.setdefault("_locals_stack", []).append(local_names(fn))
         self.depth += 1
         try:
             self.exec_block(fn.body, env)
@@ -573,6 +848,7 @@ class ObjEvaluator(Evaluator):
                 return r.value
         finally:
             self.depth -= 1
+            self._locals_stack.pop()
         return env["$yield"] if gen else None
 
     # -------------------------------------------------------------- operators
@@ -653,6 +929,13 @@ class ObjEvaluator(Evaluator):
                 a, b = Rat.const(1), Rat.const(0)
             elif ok and coefs and all(c_ < 0 for c_ in coefs) and lo + sum(coefs) < 0:
                 a, b = Rat.const(-1), Rat.const(0)
+        def type_name(t_):
+            return t_[1] if isinstance(t_, tuple) and len(t_) == 2 and t_[0] in ("builtin", "type", "typeobj") and isinstance(t_[1], str) \
+                and t_[1] in ("str", "int", "float", "bool", "list", "tuple", "dict", "NoneType", "object", "other") else None
+        if isinstance(op, (ast.Eq, ast.NotEq, ast.Is, ast.IsNot)) and type_name(a) is not None and type_name(b) is not None:
+            # type(x) == str, type(x) is float, type(x) == type("")
+            r = type_name(a) == type_name(b)
+            return r if isinstance(op, (ast.Eq, ast.Is)) else not r
         if isinstance(op, (ast.Eq, ast.NotEq)) and (isinstance(a, (Sym, SStr, Obj)) or isinstance(b, (Sym, SStr, Obj))):
             r = okey(a) == okey(b)
             if not r and (isinstance(a, Sym) or isinstance(b, Sym)) and isinstance(a, (Sym, str, SStr)) and isinstance(b, (Sym, str, SStr)):
@@ -748,6 +1031,9 @@ class ObjEvaluator(Evaluator):
             return "dict"
         if isinstance(v, list):
             return "list"
+        from .symeval import is_tagged
+        if is_tagged(v):
+            return "other"            # a function, class, module, pattern ... value (represented by a tagged tuple)
         if isinstance(v, tuple):
             return "tuple"
         return "other"
@@ -795,6 +1081,13 @@ class ObjEvaluator(Evaluator):
         raise AnalysisError("E7: %s(%r) (line %d)" % (which, v, node.lineno))
 
     def builtin(self, name, args, kwargs, node):
+        if name == "slice" and 1 <= len(args) <= 3 and not kwargs:
+            ints = [None if a_ is None else const_int(a_) for a_ in args]
+            if any(i_ is None and a_ is not None for i_, a_ in zip(ints, args)):
+                raise AnalysisError("E7: slice() with bounds that are not constant (line %d)" % node.lineno)
+            return slice(*ints)
+        if name == "object" and not args and not kwargs:
+            return self.new_obj("sentinel")           # a fresh object: equal only to itself
         if name in ("float", "int") and len(args) == 1:
             r = self.convert(name, args[0], node)
             if name == "int" and isinstance(args[0], Rat) and args[0].is_const() and isinstance(node, ast.Call) \
@@ -877,6 +1170,24 @@ class ObjEvaluator(Evaluator):
         return Evaluator.builtin(self, name, args, kwargs, node)
 
     def method_call(self, base, attr, args, kwargs, node):
+        from .symeval import NTuple
+        if isinstance(base, NTuple):
+            if attr == "_replace" and not args:
+                vals = list(base)
+                for k_, v_ in kwargs.items():
+                    if k_ not in base.nt_fields:
+                        raise PyRaise("ValueError", node, "unexpected field %s" % k_)
+                    vals[base.nt_fields.index(k_)] = v_
+                return NTuple(base.nt_name, base.nt_fields, vals, klass=getattr(base, "cls", None))
+            if attr == "_asdict" and not args and not kwargs:
+                return dict(zip(base.nt_fields, base))
+            if attr in ("index", "count") and len(args) == 1:
+                ks = [okey(x_) for x_ in base]
+                if attr == "count":
+                    return Rat.const(ks.count(okey(args[0])))
+                if okey(args[0]) not in ks:
+                    raise PyRaise("ValueError", node, "not in tuple")
+                return Rat.const(ks.index(okey(args[0])))
         if isinstance(base, dict) and attr in ("get", "pop", "setdefault", "__contains__") and args and isinstance(args[0], (Sym, SStr)):
             # a look-up of an unknown text among constant keys: the generic text is none of them (the answer given here); the
             # keys are the special values of that text -- recorded, so that the rule can add one scenario per key
@@ -1084,6 +1395,15 @@ class ObjEvaluator(Evaluator):
         if getattr(self, "allow_opaque_calls", False) or name in getattr(self.mod, "functions", {}):
             return Evaluator.opaque_call(self, name, args, kwargs, node)
         raise AnalysisError("E7: call of `%s` is not modelled (line %d)" % (name, getattr(node, "lineno", 0)))
+
+
+class FullEvaluator(ObjEvaluator):
+    """what `Evaluator(...)` constructs: the object-aware interpreter with E3's conventions"""
+
+    def __init__(self, mod, **kw):
+        ObjEvaluator.__init__(self, mod, **kw)
+        self.check_asserts = False
+        self.allow_opaque_calls = True
 
 
 class FileSystem:
